@@ -29,6 +29,7 @@ ASSUMPTIONS = [
     "timeouts are driven logically (asyncio.timeout().reschedule(now)), never by sleeping",
 ]
 FLOORS = {"quick": {"schedules": 8000, "distinct_histories": 1500}, "thorough": {"schedules": 400000, "distinct_histories": 40000}}
+ANCHORS = ['AsyncChannel.done', 'AsyncChannel.close', 'AsyncChannel._flush_queue', 'AsyncChannel.__anext__', 'AsyncChannel.receive', 'AsyncChannel.send', 'AsyncChannel.send_from']
 CONTRACTS = []
 SHARD_TIMEOUT = {"quick": 600, "thorough": 3000}
 
